@@ -215,7 +215,7 @@ class Ref:
                 return "skip"
             H[h] = H[g]
             return "ok"
-        if op in ("slice", "clone", "concat", "rev", "filt"):
+        if op in ("slice", "slicee", "clone", "concat", "rev", "filt"):
             tt, h = sl(a[0]), sl(a[1])
             if H[h] is None:
                 return "skip"
@@ -224,9 +224,9 @@ class Ref:
             if op == "slice":
                 i1 = int(a[2]) % (n + 1)
                 i2 = i1 + int(a[3]) % (n - i1 + 1)
-                if i2 == 0:
-                    i2 = n           # documented: i2 == 0 means "to the end"
                 self.store(tt, l[i1:i2])
+            elif op == "slicee":
+                self.store(tt, l[int(a[2]) % (n + 1):])
             elif op == "clone":
                 self.store(tt, l)
             elif op == "rev":
@@ -629,7 +629,10 @@ def gen_case(rng, t, cont, nops, profile, exclusive=False):
             else:
                 emit(("%s %d %s" % (o, h, vs)).strip())
         elif w < 0.67:
-            emit("slice %d %d %d %d" % (rng.randrange(NS), h, rng.randrange(n + 1), rng.randrange(n + 1)))
+            if rng.random() < 0.25:
+                emit("slicee %d %d %d" % (rng.randrange(NS), h, rng.randrange(n + 2)))
+            else:
+                emit("slice %d %d %d %d" % (rng.randrange(NS), h, rng.choice([0, 0, rng.randrange(n + 1)]), rng.choice([0, rng.randrange(n + 1)])))
         elif w < 0.70:
             emit("clone %d %d" % (rng.randrange(NS), h))
         elif w < 0.72:
